@@ -68,6 +68,7 @@ def render(doc, digests, order):
 
 
 class Run(object):
+    eg = False          # (set by replay) Tor names entry guards at the bootstrap
     early = None        # (set by replay) the document that arrives as NEWCONSENSUS while the bootstrap is still running
 
     def __init__(self, salt):
@@ -118,6 +119,10 @@ class Run(object):
                 return self.obs(e["d"])         # it was delivered during the bootstrap already
             if self.state is None:
                 self.sim.info["ns/all"] = lines
+                if self.eg:
+                    # Tor's entry guards, as the bootstrap asks for them: relays of the first document
+                    present = [r for r in RELAYS if e["d"][r]["here"]][:2]
+                    self.sim.info["entry-guards"] = ["%s~%s up" % (hexid(self.digests[r]), NICKS[e["d"][r]["nick"]]) for r in present]
                 stash = []
                 if self.early is not None:
                     # Tor publishes a new consensus right after acknowledging the NEWCONSENSUS subscription, while the
@@ -207,8 +212,9 @@ class Run(object):
         return dict(relays=relays, byname=byname, guards=guards, auths=auths, nrelays=len(allr), exc=self.exc)
 
 
-def replay(script, salt, early=False):
+def replay(script, salt, early=False, eg=False):
     run = Run(salt)
+    run.eg = bool(eg)
     docs = [e for e in script if e["a"] != "Lookup"]
     if early and len(docs) >= 2 and script[0]["a"] != "Lookup" and script[1]["a"] != "Lookup":
         run.early = script[1]["d"]
@@ -219,7 +225,7 @@ def replay(script, salt, early=False):
         steps.append(s)
         if run.exc:
             break
-    return dict(steps=steps, salt=salt, early=bool(early), errors=run.errors[:2])
+    return dict(steps=steps, salt=salt, early=bool(early), eg=bool(eg), errors=run.errors[:2])
 
 
 def rand_doc(rng, nicks=("n1", "n2", "n3")):
